@@ -139,10 +139,13 @@ func (vars *Vars) Merge(other *Vars, include *Include) {
 	defer other.mutex.RUnlock()
 	other.mutex.RLock()
 	for pair := other.om.Front(); pair != nil; pair = pair.Next() {
+		// Work on a copy: other may be the variables of an included Taskfile
+		// that is merged into several Taskfiles, each with its own directory
+		value := pair.Value
 		if include != nil && include.AdvancedImport {
-			pair.Value.Dir = include.Dir
+			value.Dir = include.Dir
 		}
-		vars.om.Set(pair.Key, pair.Value)
+		vars.om.Set(pair.Key, value)
 	}
 }
 
